@@ -399,14 +399,20 @@ class Engine:
         return outs
 
     def st_Try(self, node, st):
-        if node.finalbody or node.orelse:
-            raise EngineUnsupported("try/finally or try/else")
         outs = []
         for s, c in self.exec_block(node.body, st):
-            if not isinstance(c, RaiseExc):
+            if isinstance(c, RaiseExc):
+                outs += self.dispatch_handlers(node.handlers, s, c)
+            elif c is None and node.orelse:
+                outs += self.exec_block(node.orelse, s)  # runs when the body fell off its end; its own exceptions are NOT handled here
+            else:
                 outs.append((s, c))
-                continue
-            outs += self.dispatch_handlers(node.handlers, s, c)
+        if node.finalbody:  # runs on every outcome; a return / raise / break of its own replaces the pending one
+            final = []
+            for s, c in outs:
+                for s2, c2 in self.exec_block(node.finalbody, s):
+                    final.append((s2, c2 if c2 is not None else c))
+            outs = final
         return outs
 
     def dispatch_handlers(self, handlers, st, exc):
